@@ -20,9 +20,15 @@ def main():
         if a.prop in ("C04", "C05"):
             import dmcheck
             return dmcheck.run(a.prop, a.tier)
+        if a.prop == "C19":
+            import payloadcheck
+            return payloadcheck.run(a.prop, a.tier)
         if a.prop == "C18":
             import blockscheck
             return blockscheck.run(a.prop, a.tier)
+        if a.prop in ("C01", "C02"):
+            import pducheck
+            return pducheck.run(a.prop, a.tier)
         print("unknown property %s" % a.prop)
         return 2
     except MachineryError as e:
